@@ -8,16 +8,16 @@ use embedded_graphics_core::{draw_target::DrawTarget, geometry::{OriginDimension
 
 const MAXC: usize = 32;
 #[derive(Clone, Copy)]
-struct Call { rect: Rectangle, contiguous: bool, colour: Rgb565 }
+struct Call<C: RgbColor> { rect: Rectangle, contiguous: bool, colour: C }
 
 /// Draw target of symbolic size that records the calls (rectangle + colour) without iterating pixel data: drawing the
 /// test image on it is loop-free except for the constant 20-row marker loop, so the harness covers every size at once.
-struct RecTarget { size: Size, calls: [Call; MAXC], n: usize, overflow: bool, pixel_calls: u32 }
-impl RecTarget {
+struct RecTarget<C: RgbColor> { size: Size, calls: [Call<C>; MAXC], n: usize, overflow: bool, pixel_calls: u32 }
+impl<C: RgbColor> RecTarget<C> {
     fn new(w: u32, h: u32) -> Self {
-        RecTarget { size: Size::new(w, h), calls: [Call { rect: Rectangle::zero(), contiguous: false, colour: Rgb565::BLACK }; MAXC], n: 0, overflow: false, pixel_calls: 0 }
+        RecTarget { size: Size::new(w, h), calls: [Call { rect: Rectangle::zero(), contiguous: false, colour: C::BLACK }; MAXC], n: 0, overflow: false, pixel_calls: 0 }
     }
-    fn rec(&mut self, rect: Rectangle, contiguous: bool, colour: Rgb565) {
+    fn rec(&mut self, rect: Rectangle, contiguous: bool, colour: C) {
         if self.n < MAXC { self.calls[self.n] = Call { rect, contiguous, colour }; self.n += 1; } else { self.overflow = true; }
     }
     /// index of the last call whose rectangle covers p (what p finally shows), if any
@@ -31,22 +31,29 @@ impl RecTarget {
         r
     }
 }
-impl OriginDimensions for RecTarget { fn size(&self) -> Size { self.size } }
-impl DrawTarget for RecTarget {
-    type Color = Rgb565;
+impl<C: RgbColor> OriginDimensions for RecTarget<C> { fn size(&self) -> Size { self.size } }
+impl<C: RgbColor> DrawTarget for RecTarget<C> {
+    type Color = C;
     type Error = core::convert::Infallible;
-    fn draw_iter<I: IntoIterator<Item = Pixel<Rgb565>>>(&mut self, _pixels: I) -> Result<(), Self::Error> { self.pixel_calls += 1; Ok(()) }
-    fn fill_contiguous<I: IntoIterator<Item = Rgb565>>(&mut self, area: &Rectangle, _colors: I) -> Result<(), Self::Error> { self.rec(*area, true, Rgb565::BLACK); Ok(()) }
-    fn fill_solid(&mut self, area: &Rectangle, color: Rgb565) -> Result<(), Self::Error> { self.rec(*area, false, color); Ok(()) }
+    fn draw_iter<I: IntoIterator<Item = Pixel<C>>>(&mut self, _pixels: I) -> Result<(), Self::Error> { self.pixel_calls += 1; Ok(()) }
+    fn fill_contiguous<I: IntoIterator<Item = C>>(&mut self, area: &Rectangle, _colors: I) -> Result<(), Self::Error> { self.rec(*area, true, C::BLACK); Ok(()) }
+    fn fill_solid(&mut self, area: &Rectangle, color: C) -> Result<(), Self::Error> { self.rec(*area, false, color); Ok(()) }
 }
 
 /// no panic on any target size from 0 x 0 upward (e-g rectangle arithmetic, try_from(5).unwrap(), width / 3, the marker loop)
 #[kani::proof]
 #[kani::unwind(23)]
-fn c19_no_panic_any_size() {
+fn c19_no_panic_any_size() { no_panic_any_size::<Rgb565>() }
+#[kani::proof]
+#[kani::unwind(23)]
+fn c19_no_panic_any_size_rgb666() { no_panic_any_size::<embedded_graphics_core::pixelcolor::Rgb666>() }
+#[kani::proof]
+#[kani::unwind(23)]
+fn c19_no_panic_any_size_rgb888() { no_panic_any_size::<embedded_graphics_core::pixelcolor::Rgb888>() }
+fn no_panic_any_size<C: RgbColor>() {
     let (w, h): (u16, u16) = (kani::any(), kani::any());
-    let mut t = RecTarget::new(w as u32, h as u32);
-    assert!(TestImage::<Rgb565>::new().draw(&mut t).is_ok());
+    let mut t = RecTarget::<C>::new(w as u32, h as u32);
+    assert!(TestImage::<C>::new().draw(&mut t).is_ok());
     kani::assert(!t.overflow && t.pixel_calls == 0, "C19: test image relies only on fill_contiguous / fill_solid and the target's clipping");
     kani::cover!(w == 0 && h == 0);
 }
@@ -54,12 +61,19 @@ fn c19_no_panic_any_size() {
 /// all sizes >= 32 x 32: structure of the image (call-level contract) and witness points for the seven symmetries
 #[kani::proof]
 #[kani::unwind(34)]
-fn c19_structure_and_symmetry_witnesses() {
+fn c19_structure_and_symmetry_witnesses() { structure_and_symmetry_witnesses::<Rgb565>() }
+#[kani::proof]
+#[kani::unwind(34)]
+fn c19_structure_and_symmetry_witnesses_rgb666() { structure_and_symmetry_witnesses::<embedded_graphics_core::pixelcolor::Rgb666>() }
+#[kani::proof]
+#[kani::unwind(34)]
+fn c19_structure_and_symmetry_witnesses_rgb888() { structure_and_symmetry_witnesses::<embedded_graphics_core::pixelcolor::Rgb888>() }
+fn structure_and_symmetry_witnesses<C: RgbColor>() {
     let (w, h): (u16, u16) = (kani::any(), kani::any());
     kani::assume(w >= 32 && h >= 32);
     let (w, h) = (w as i32, h as i32);
-    let mut t = RecTarget::new(w as u32, h as u32);
-    assert!(TestImage::<Rgb565>::new().draw(&mut t).is_ok());
+    let mut t = RecTarget::<C>::new(w as u32, h as u32);
+    assert!(TestImage::<C>::new().draw(&mut t).is_ok());
     let bbox = Rectangle::new(Point::zero(), Size::new(w as u32, h as u32));
     // call 0 paints every pixel of the target (border stream)
     kani::assert(t.n == 27 && t.calls[0].contiguous && t.calls[0].rect == bbox, "C19: the first call must paint the whole target");
@@ -76,10 +90,10 @@ fn c19_structure_and_symmetry_witnesses() {
         kani::assert(fits, "C19: a later call paints into the white frame");
     }
     // colour bars: green over the whole inner area, then red on the left third, blue on the right third
-    kani::assert(!t.calls[1].contiguous && t.calls[1].rect == inner && t.calls[1].colour == Rgb565::GREEN, "C19: green bar");
+    kani::assert(!t.calls[1].contiguous && t.calls[1].rect == inner && t.calls[1].colour == C::GREEN, "C19: green bar");
     kani::assert(t.calls[2].contiguous && t.calls[4].contiguous && t.calls[6].contiguous, "C19: glyphs are contiguous fills");
     let (red, blue) = (t.calls[3], t.calls[5]);
-    kani::assert(!red.contiguous && red.colour == Rgb565::RED && !blue.contiguous && blue.colour == Rgb565::BLUE, "C19: red and blue bars");
+    kani::assert(!red.contiguous && red.colour == C::RED && !blue.contiguous && blue.colour == C::BLUE, "C19: red and blue bars");
     let third = ((w - 10) / 3) as u32;
     kani::assert(red.rect == Rectangle::new(Point::new(5, 5), Size::new(third, (h - 10) as u32)), "C19: red bar is the left third");
     kani::assert(blue.rect == Rectangle::new(Point::new(w - 5 - third as i32, 5), Size::new(third, (h - 10) as u32)), "C19: blue bar is the right third");
@@ -88,16 +102,16 @@ fn c19_structure_and_symmetry_witnesses() {
     let j: usize = kani::any();
     kani::assume(j < 20);
     let m = t.calls[7 + j];
-    kani::assert(!m.contiguous && m.colour == Rgb565::WHITE && m.rect == Rectangle::new(Point::new(5, 5 + j as i32), Size::new(20 - j as u32, 1)), "C19: top-left marker");
+    kani::assert(!m.contiguous && m.colour == C::WHITE && m.rect == Rectangle::new(Point::new(5, 5 + j as i32), Size::new(20 - j as u32, 1)), "C19: top-left marker");
     // ---- witness points: final colour = colour of the last call covering the point (none of them lies in a glyph rectangle)
-    let solid = |p: Point| -> Option<Rgb565> {
+    let solid = |p: Point| -> Option<C> {
         match t.last_cover(p) { Some(i) if !t.calls[i].contiguous => Some(t.calls[i].colour), _ => None }
     };
     let tl = Point::new(5, 5);                  // marker apex: white
     let tr = Point::new(w - 6, 5);              // top right of the inner area: blue
     let bl = Point::new(5, h - 6);              // bottom left: red
     let brp = Point::new(w - 6, h - 6);         // bottom right: blue
-    kani::assert(solid(tl) == Some(Rgb565::WHITE) && solid(tr) == Some(Rgb565::BLUE) && solid(bl) == Some(Rgb565::RED) && solid(brp) == Some(Rgb565::BLUE), "C19: corner witnesses (marker / red / blue) are not what the diagnosis relies on");
+    kani::assert(solid(tl) == Some(C::WHITE) && solid(tr) == Some(C::BLUE) && solid(bl) == Some(C::RED) && solid(brp) == Some(C::BLUE), "C19: corner witnesses (marker / red / blue) are not what the diagnosis relies on");
     // mirror left-right: bl <-> brp (red vs blue); rotate 180: bl <-> tr (red vs blue); mirror top-bottom: tl <-> bl (white vs red)
     assert!(Point::new(w - 1 - bl.x, bl.y) == brp && Point::new(w - 1 - bl.x, h - 1 - bl.y) == tr && Point::new(tl.x, h - 1 - tl.y) == bl);
     // on square targets the four transposing symmetries map tl to tr / bl / brp (white vs blue / red / blue); on non-square
